@@ -2222,3 +2222,200 @@ def k_if_dispatch(E, tier):
     if seen != {"if", "else"}:
         rec.add("both branches are reachable (%s)" % sorted(seen), {"verdict": "inconclusive", "per_solver": {}, "time_s": 0})
     return rec
+
+
+def k_set_variable(E, tier):
+    """C16 (flag rules) / C37 (built-in modules): Scope::set_variable.
+    `!default` skips the write exactly when the variable already has a non-null value; `!global` writes through
+    define_global, otherwise the write goes to this scope's own table; assigning to `module.$var` of a built-in
+    module (marked by @scope_name@) is refused.  Recorded finding: an unflagged assignment never looks at the
+    enclosing scopes, so it shadows an enclosing local instead of updating it."""
+    cssv = E.load_enum("css/value.rs", "Value", "css::value::Value")
+    f = E.find(name_re=r"^variablescope::<impl at .*>::set_variable$")
+    rec = Rec("Scope::set_variable", f, E)
+    for modcase in (False, True):
+        ctx = E.ctx()
+        me = sym.Opaque("Scope", "self", ctx)
+        name = sym.Opaque("Name", "name", ctx)
+        val = sym.Opaque("css::value::Value", "val", ctx)
+        dflt = ctx.fresh_scalar("bool", "default")
+        glob = ctx.fresh_scalar("bool", "global")
+        existing = sym.Opaque("std::option::Option<css::value::Value>", "existing", ctx)
+        module = sym.Opaque("ScopeRef", "module", ctx)
+        inner_name = sym.Opaque("Name", "inner-name", ctx)
+
+        def ev(nm, ret=None):
+            def h(ex, st, c, a, d, nm=nm, ret=ret):
+                e = sym.Event(nm, a, None, len(st.pc))
+                e.rargs = [ex.resolve_ref(st, x) for x in a]
+                r = ret(ex, st, d) if ret else ctx.fresh_value(d or "()", "ret." + nm)
+                e.result = r
+                st.events.append(e)
+                return r
+            return h
+
+        def r_split(ex, st, d):
+            if not modcase:
+                return sym.Agg(d, "None", {}, 0)
+            return sym.Agg(d, "Some", {"0": sym.Agg("pair", None, {"0": sym.Opaque("String", "modname", ctx), "1": inner_name})}, 1)
+
+        def m_get_module(ex, st, c, a, d):
+            none = st.fork()
+            some = st.fork()
+            some.events.append(sym.Event("get_module", a, module, len(st.pc)))
+            return [(some, sym.Agg(d, "Some", {"0": module}, 1)), (none, sym.Agg(d, "None", {}, 0))]
+
+        def m_ok_or(ex, st, c, a, d):
+            x = a[0]
+            if x.variant == "Some":
+                return sym.Agg(d, "Ok", {"0": x.fields["0"]}, 0)
+            return sym.Agg(d, "Err", {"0": a[1]}, 1)
+
+        def m_get(ex, st, c, a, d):
+            ok = st.fork()
+            err = st.fork()
+            ok.events.append(sym.Event("module.get", a, None, len(st.pc)))
+            return [(ok, sym.Agg(d, "Ok", {"0": sym.Opaque("css::value::Value", "modval", ctx)}, 0)),
+                    (err, sym.Agg(d, "Err", {"0": sym.Opaque("ScopeError", "undefined", ctx)}, 1))]
+
+        marker = ctx.fresh_scalar("bool", "is_builtin_module")
+
+        def m_is_some(ex, st, c, a, d):
+            return marker
+
+        models = [
+            (r"^Name::split_module$", ev("split_module", r_split)),
+            (r"^variablescope::Scope::get_module$", m_get_module),
+            (r"^Option::<ScopeRef>::ok_or::<ScopeError>$", m_ok_or),
+            (r"^<ScopeRef as Deref>::deref$", lambda ex, st, c, a, d: a[0]),
+            (r"^<String as Deref>::deref$", lambda ex, st, c, a, d: a[0]),
+            (r"^variablescope::Scope::get$", m_get),
+            (r"^variablescope::Scope::get_local_or_none$", ev("get_local_or_none")),
+            (r"^Option::<css::value::Value>::is_some$", m_is_some),
+            (r"^Name::from_static$", lambda ex, st, c, a, d: sym.Opaque("Name", "name:" + (a[0].s if isinstance(a[0], sym.ConstStr) else "?"), ctx)),
+            (r"^variablescope::Scope::get_or_none$", ev("get_or_none", lambda ex, st, d: existing)),
+            (r"^variablescope::Scope::define_global$", ev("define_global", lambda ex, st, d: sym.Unit())),
+            (r"^variablescope::Scope::set_variable$", ev("module.set_variable")),
+            (r"^std::sync::Mutex::<BTreeMap<Name, css::value::Value>>::lock$", ev("lock")),
+            (r"Result::<std::sync::MutexGuard<.*::unwrap$", lambda ex, st, c, a, d: a[0]),
+            (r"^<std::sync::MutexGuard<'_, BTreeMap<Name, css::value::Value>> as DerefMut>::deref_mut$", lambda ex, st, c, a, d: a[0]),
+            (r"^BTreeMap::<Name, css::value::Value>::insert$", ev("insert")),
+        ] + BASE_MODELS
+        ex = sym.Executor(ctx, models=models, feasibility=E.feasibility(ctx))
+        paths = [p for p in ex.run(f, [sym.Ref("val", me), name, val, dflt, glob]) if p.status == "return"]
+        rec.paths += len(paths)
+        if modcase:
+            seen = set()
+            for i, p in enumerate(paths):
+                if not any(e.callee == "module.get" for e in p.events):
+                    continue
+                fwd = [e for e in p.events if e.callee == "module.set_variable"]
+                writes = [e for e in p.events if e.callee in ("insert", "define_global")]
+                is_err = isinstance(p.ret, sym.Agg) and p.ret.variant == "Err"
+                if fwd:
+                    seen.add("forward")
+                    r = E.decide(ctx, p.pc + [marker.term])
+                    rec.add("module path %d: the assignment is forwarded to the module only when it is not a built-in module" % i, r)
+                    ok = fwd[0].rargs[0] is module and fwd[0].rargs[1] is inner_name and fwd[0].rargs[2] is val and not writes
+                    rec.add("module path %d: forwarded with the member name, the value and the same flags" % i,
+                            {"verdict": "holds" if ok else "violated", "per_solver": {"structural": "identity"}, "time_s": 0})
+                elif is_err and not writes:
+                    seen.add("refuse")
+                    r = E.decide(ctx, p.pc + ["(not %s)" % marker.term])
+                    rec.add("module path %d: a built-in module refuses the assignment (error, nothing written)" % i, r)
+                else:
+                    rec.add("module path %d: forward or refuse (shape not recognised)" % i, {"verdict": "inconclusive", "per_solver": {}, "time_s": 0})
+            if seen != {"forward", "refuse"}:
+                rec.add("module assignment: both outcomes present (%s)" % sorted(seen), {"verdict": "inconclusive", "per_solver": {}, "time_s": 0})
+            continue
+        D = ex.discriminant(existing).term
+        inner = existing.child("Some.0", "css::value::Value")
+        ID = ex.discriminant(inner).term
+        has_value = "(and (= %s %s) (not (= %s %s)))" % (D, bvlit(1, 64), ID, bvlit(cssv.index("Null"), 64))
+        kinds = set()
+        for i, p in enumerate(paths):
+            ins = [e for e in p.events if e.callee == "insert"]
+            dg = [e for e in p.events if e.callee == "define_global"]
+            look = [e for e in p.events if e.callee == "get_or_none"]
+            is_ok = isinstance(p.ret, sym.Agg) and p.ret.variant == "Ok"
+            if not is_ok:
+                rec.add("path %d: a plain assignment cannot fail (shape not recognised)" % i, {"verdict": "inconclusive", "per_solver": {}, "time_s": 0})
+                continue
+            if not ins and not dg:
+                kinds.add("skip")
+                r = E.decide(ctx, p.pc + ["(not (and %s %s))" % (dflt.term, has_value)], model_names=[D, ID])
+                rec.add("path %d: the write is skipped only for !default when the variable already has a non-null value" % i, r)
+            elif dg and not ins:
+                kinds.add("global")
+                r = E.decide(ctx, p.pc + ["(not (and %s (not (and %s %s))))" % (glob.term, dflt.term, has_value)], model_names=[D, ID])
+                rec.add("path %d: define_global is used exactly for !global assignments that are not skipped" % i, r)
+                ok = dg[0].rargs[0] is me and dg[0].rargs[1] is name and dg[0].rargs[2] is val
+                rec.add("path %d: the global write stores this name and this value" % i,
+                        {"verdict": "holds" if ok else "violated", "per_solver": {"structural": "identity"}, "time_s": 0})
+            elif ins and not dg:
+                kinds.add("local")
+                r = E.decide(ctx, p.pc + ["(not (and (not %s) (not (and %s %s))))" % (glob.term, dflt.term, has_value)], model_names=[D, ID])
+                rec.add("path %d: the scope's own table is written exactly for non-global assignments that are not skipped" % i, r)
+                locks = [e for e in p.events if e.callee == "lock"]
+                ok = (len(ins) == 1 and ins[0].rargs[1] is name and ins[0].rargs[2] is val and len(locks) == 1
+                      and locks[0].rargs[0] is me.children.get("2"))
+                rec.add("path %d: the local write stores this name and this value in self.variables" % i,
+                        {"verdict": "holds" if ok else "violated", "per_solver": {"structural": "identity"}, "time_s": 0})
+                # recorded finding: no look-up of enclosing scopes before an unflagged write
+                consults = [e for e in p.events if e.callee in ("get_or_none",) or "parent" in e.callee]
+                unflagged = E.decide(ctx, p.pc + [dflt.term])["verdict"] == "holds"  # this path has default = false
+                if unflagged:
+                    o = rec.add("path %d: an unflagged assignment updates the innermost enclosing scope that already declares the variable "
+                                "(the code writes to its own scope without looking at the enclosing ones)" % i,
+                                {"verdict": "violated" if not consults else "holds", "per_solver": {"structural": "no enclosing-scope lookup on this path"}, "time_s": 0})
+                    o["region_excluded"] = "holds"  # structural finding confined to this obligation; every other obligation is separate
+            else:
+                rec.add("path %d: exactly one kind of write (shape not recognised)" % i, {"verdict": "inconclusive", "per_solver": {}, "time_s": 0})
+        if kinds != {"skip", "global", "local"}:
+            rec.add("skip, global and local outcomes all present (%s)" % sorted(kinds), {"verdict": "inconclusive", "per_solver": {}, "time_s": 0})
+    # define_global: walks to the root
+    g = E.find(name_re=r"^variablescope::<impl at .*>::define_global$")
+    ctx2 = E.ctx()
+    me2 = sym.Opaque("Scope", "self", ctx2)
+    nm2 = sym.Opaque("Name", "name", ctx2)
+    v2 = sym.Opaque("css::value::Value", "val", ctx2)
+
+    def ev2(nmx):
+        def h(ex, st, c, a, d):
+            e = sym.Event(nmx, a, None, len(st.pc))
+            e.rargs = [ex.resolve_ref(st, x) for x in a]
+            st.events.append(e)
+            return ctx2.fresh_value(d or "()", "ret." + nmx)
+        return h
+
+    models2 = [
+        (r"^variablescope::Scope::define_global$", ev2("parent.define_global")),
+        (r"^<ScopeRef as Deref>::deref$", lambda ex, st, c, a, d: a[0]),
+        (r"^std::sync::Mutex::<BTreeMap<Name, css::value::Value>>::lock$", ev2("lock")),
+        (r"Result::<std::sync::MutexGuard<.*::unwrap$", lambda ex, st, c, a, d: a[0]),
+        (r"^<std::sync::MutexGuard<'_, BTreeMap<Name, css::value::Value>> as DerefMut>::deref_mut$", lambda ex, st, c, a, d: a[0]),
+        (r"^BTreeMap::<Name, css::value::Value>::insert$", ev2("insert")),
+    ] + BASE_MODELS
+    ex2 = sym.Executor(ctx2, models=models2, feasibility=E.feasibility(ctx2))
+    p2 = [p for p in ex2.run(g, [sym.Ref("val", me2), nm2, v2]) if p.status == "return"]
+    rec.paths += len(p2)
+    kinds2 = set()
+    for i, p in enumerate(p2):
+        up = [e for e in p.events if e.callee == "parent.define_global"]
+        ins = [e for e in p.events if e.callee == "insert"]
+        parent = me2.children.get("0") or me2.children.get("parent")
+        if up and not ins:
+            kinds2.add("up")
+            ok = up[0].rargs[1] is nm2 and up[0].rargs[2] is v2
+            rec.add("define_global path %d: with a parent, the same name and value are handed to the parent" % i,
+                    {"verdict": "holds" if ok else "violated", "per_solver": {"structural": "identity"}, "time_s": 0})
+        elif ins and not up:
+            kinds2.add("root")
+            ok = ins[0].rargs[1] is nm2 and ins[0].rargs[2] is v2
+            rec.add("define_global path %d: the root scope stores the name and value in its own table" % i,
+                    {"verdict": "holds" if ok else "violated", "per_solver": {"structural": "identity"}, "time_s": 0})
+        else:
+            rec.add("define_global path %d: parent or root (shape not recognised)" % i, {"verdict": "inconclusive", "per_solver": {}, "time_s": 0})
+    if kinds2 != {"up", "root"}:
+        rec.add("define_global: both the recursive and the root case present (%s)" % sorted(kinds2), {"verdict": "inconclusive", "per_solver": {}, "time_s": 0})
+    return rec
